@@ -252,24 +252,30 @@ def run_campaign(engine, prop, tier, verif_seed, n_runs, run_cfg, wall_cap):
             attempt[w] += 1
             if remaining and attempt[w] < 50:
                 spawn(w, remaining)
-    results = {}
-    for w in range(nproc):
-        if os.path.exists(files[w]):
-            for line in open(files[w]):
-                try:
-                    d = json.loads(line)
-                except Exception:
-                    continue
-                if "i" in d:
-                    results[d["i"]] = d
-            os.unlink(files[w])
-    try:
-        os.rmdir(tmpd)
-    except OSError:
-        pass
     counters["capped"] = int(capped)
     counters["wall_s"] = time.time() - t0
-    return [results[i] for i in sorted(results)], counters
+
+    def records():
+        """Stream the per-run records (memory stays flat for multi-million-run campaigns)."""
+        seen = set()
+        for w in range(nproc):
+            if os.path.exists(files[w]):
+                with open(files[w]) as fh:
+                    for line in fh:
+                        try:
+                            d = json.loads(line)
+                        except Exception:
+                            continue
+                        if "i" in d and d["i"] not in seen:
+                            seen.add(d["i"])
+                            yield d
+                os.unlink(files[w])
+        try:
+            os.rmdir(tmpd)
+        except OSError:
+            pass
+
+    return records(), counters
 
 
 # ------------------------------------------------------------------------------------------
